@@ -1,9 +1,281 @@
 import QV.Driver.Util
+import QV.Model.Name
+import QV.Spec.NameText
+
+/-!
+  ops of group `name` (C16).  Names are passed as wire hex, texts as the hex of their UTF-8
+  octets.  A wire argument that is not a valid name gives `err` in every column.
+
+    npres <wire> <texthex>   Display: the text is what the implementation printed (recorded input);
+                             model: prints the same?  spec: does the text denote the name?
+    np <texthex>             FromStr                      -> ok <wire> <n_labels> | err:<Variant>
+    nrt <wire>               parse(display(name))         -> ok <wire>
+    neq <a> <b>              a == b                       -> ok 0|1
+    ncmp <a> <b>             a.cmp(b)                     -> ok lt|eq|gt
+    ncmp3 <a> <b> <c>        the three comparisons + law flags -> ok ab bc ac ba anti trans
+    nhash <a>                octets fed to the hasher     -> ok <hex>
+    nsub <a> <b>             a.eq_or_subdomain_of(b)      -> ok 0|1
+    nsup <a> <k>             a.superdomain(k)             -> ok <wire> | none
+    nlab <a>                 len, is_root, is_wildcard, labels() -> ok <n> <0|1> <0|1> <l0>,<l1>,…
+    nlow <a>                 Box<LowercaseName>::from     -> ok <wire>
+    nwr <a> <k>              wire_repr_to(k), wire_repr_from(k) -> ok <to> <from> | panic
+    nidx <a> <i>             a[i]                         -> ok <label> | panic
+    lcmp <l1> <l2>           Label cmp / eq               -> ok lt|eq|gt 0|1 | err (label > 63)
+    lhash <l>                octets fed to the hasher by a Label -> ok <hex> | err
+    nb <script>              NameBuilder script, `;`-separated steps: p<hh> try_push, s<hex>
+                             try_push_slice, n next_label, q is_fully_qualified, f finish,
+                             x<wire> finish_with_suffix -> `ok ` + `;`-joined step results
+-/
 
 namespace QV.Driver
-open QV
+open QV QV.Name QV.Spec.NameText
 
-/-- ops of group `name` — stub (not built yet) -/
-def nameHandler : Handler := fun _ _ => none
+private def b01 (b : Bool) : String := if b then "1" else "0"
+
+private def labelsHex (ls : List (List UInt8)) : String := ",".intercalate (ls.map hexOfList)
+
+/-- run `f` on a wire argument that must be a valid name (model gate: `wfb`; spec gate: `fromWire`) -/
+private def withName (h : String) (m : List UInt8 → String) (s : DName → String) : Option (String × String) :=
+  match unhex h with
+  | none => some bad
+  | some w =>
+    let wl := w.toList
+    some (if wfb wl then m wl else "err:NotWF",
+          match fromWire wl with
+          | some n => s n
+          | none => "err")
+
+private def withNames2 (h1 h2 : String) (m : List UInt8 → List UInt8 → String) (s : DName → DName → String) :
+    Option (String × String) :=
+  match unhex h1, unhex h2 with
+  | some a, some b =>
+    let al := a.toList
+    let bl := b.toList
+    some (if wfb al && wfb bl then m al bl else "err:NotWF",
+          match fromWire al, fromWire bl with
+          | some x, some y => s x y
+          | _, _ => "err")
+  | _, _ => some bad
+
+private def ordS : Ordering → String := ordStr
+
+private def lawFlags (ab bc ac ba : Ordering) : String :=
+  let anti := ab == ba.swap
+  let trans := !((ab != .gt && bc != .gt && ac == .gt) || (ab == .lt && bc == .lt && ac != .lt))
+  s!"{ordS ab} {ordS bc} {ordS ac} {ordS ba} {b01 anti} {b01 trans}"
+
+/-! model / spec interpreters of builder scripts -/
+
+private def showUnit : Out NameErr Unit → String
+  | .ok _ => "ok"
+  | .err e => "err:" ++ e.toString
+  | .panic => "panic"
+
+private def showBuilt : Out NameErr Built → String
+  | .ok r => s!"ok {hexOfList r.wire} {r.offsets.length}"
+  | .err e => "err:" ++ e.toString
+  | .panic => "panic"
+
+private def octetArg (s : String) : Option UInt8 :=
+  match unhex s with
+  | some b => if b.size = 1 then some (b.getD 0 0) else none
+  | none => none
+
+/-- `none` = malformed script -/
+private def runScriptM (b : Builder) (outs : List String) : List String → Option (List String)
+  | [] => some outs.reverse
+  | step :: rest =>
+    let op := step.take 1
+    let arg := (step.drop 1).toString
+    if op == "p" then
+      match octetArg arg with
+      | some o =>
+        let (b', r) := b.tryPush o
+        if r = .panic then some ["panic"] else runScriptM b' (showUnit r :: outs) rest
+      | none => none
+    else if op == "s" then
+      match unhex arg with
+      | some os =>
+        let (b', r) := b.tryPushSlice os.toList
+        if r = .panic then some ["panic"] else runScriptM b' (showUnit r :: outs) rest
+      | none => none
+    else if step = "n" then
+      let (b', r) := b.nextLabel
+      if r = .panic then some ["panic"] else runScriptM b' (showUnit r :: outs) rest
+    else if step = "q" then runScriptM b (b01 b.isFullyQualified :: outs) rest
+    else if step = "f" then
+      let r := b.finish
+      if r = .panic then some ["panic"] else some (showBuilt r :: outs).reverse
+    else if op == "x" then
+      match unhex arg with
+      | some sfx =>
+        if wfb sfx.toList then
+          let r := b.finishWithSuffix sfx.toList
+          if r = .panic then some ["panic"] else some (showBuilt r :: outs).reverse
+        else none
+      | none => none
+    else none
+
+private def showRef : Except BuildErr RefBuilder → String
+  | .ok _ => "ok"
+  | .error e => "err:" ++ e.toString
+
+private def showRefName : Except BuildErr DName → String
+  | .ok n => s!"ok {hexOfList (toWire n)} {n.length + 1}"
+  | .error e => "err:" ++ e.toString
+
+private def runScriptS (b : RefBuilder) (outs : List String) : List String → Option (List String)
+  | [] => some outs.reverse
+  | step :: rest =>
+    let op := step.take 1
+    let arg := (step.drop 1).toString
+    if op == "p" then
+      match octetArg arg with
+      | some o =>
+        let r := b.push o
+        runScriptS (match r with | .ok b' => b' | .error _ => b) (showRef r :: outs) rest
+      | none => none
+    else if op == "s" then
+      match unhex arg with
+      | some os =>
+        let r := b.pushSlice os.toList
+        runScriptS (match r with | .ok b' => b' | .error _ => b) (showRef r :: outs) rest
+      | none => none
+    else if step = "n" then
+      let r := b.nextLabel
+      runScriptS (match r with | .ok b' => b' | .error _ => b) (showRef r :: outs) rest
+    else if step = "q" then runScriptS b (b01 b.cur.isEmpty :: outs) rest
+    else if step = "f" then some (showRefName b.finish :: outs).reverse
+    else if op == "x" then
+      match unhex arg with
+      | some sfx =>
+        match fromWire sfx.toList with
+        | some n => some (showRefName (b.finishWithSuffix n) :: outs).reverse
+        | none => none
+      | none => none
+    else none
+
+def nameHandler : Handler := fun op args =>
+  match op, args with
+  | "npres", [w, t] =>
+    match unhex t with
+    | some text =>
+      withName w
+        (fun wl => match displayName wl with
+          | .ok t' => if t' = text.toList then "ok" else "differs:" ++ hexOfList t'
+          | .err e => "err:" ++ e.toString
+          | .panic => "panic")
+        (fun n => if specFromStr text.toList = some (toWire n) then "ok" else "err")
+    | none => some bad
+  | "np", [t] =>
+    match unhex t with
+    | some text =>
+      some (match fromStr text.toList with
+            | .ok r => s!"ok {hexOfList r.wire} {r.offsets.length}"
+            | .err e => "err:" ++ e.toString
+            | .panic => "panic",
+            match parseText text.toList with
+            | some n => if validName n then s!"ok {hexOfList (toWire n)} {n.length + 1}" else "err"
+            | none => "err")
+    | none => some bad
+  | "nrt", [w] =>
+    withName w
+      (fun wl => match displayName wl with
+        | .ok t => (match fromStr t with
+          | .ok r => "ok " ++ hexOfList r.wire
+          | .err e => "err:" ++ e.toString
+          | .panic => "panic")
+        | .err e => "err:" ++ e.toString
+        | .panic => "panic")
+      (fun n => "ok " ++ hexOfList (toWire n))
+  | "neq", [a, b] =>
+    withNames2 a b (fun x y => "ok " ++ b01 (nameEq x y))
+      (fun x y => "ok " ++ b01 (decide (SameName x y)))
+  | "ncmp", [a, b] =>
+    withNames2 a b (fun x y => "ok " ++ ordS (nameCmp x y)) (fun x y => "ok " ++ ordS (canonicalCmp x y))
+  | "ncmp3", [a, b, c] =>
+    match unhex a, unhex b, unhex c with
+    | some a, some b, some c =>
+      let (x, y, z) := (a.toList, b.toList, c.toList)
+      some (if wfb x && wfb y && wfb z then
+              "ok " ++ lawFlags (nameCmp x y) (nameCmp y z) (nameCmp x z) (nameCmp y x)
+            else "err:NotWF",
+            match fromWire x, fromWire y, fromWire z with
+            | some p, some q, some r =>
+              "ok " ++ lawFlags (canonicalCmp p q) (canonicalCmp q r) (canonicalCmp p r) (canonicalCmp q p)
+            | _, _, _ => "err")
+    | _, _, _ => some bad
+  | "nhash", [a] =>
+    withName a (fun x => "ok " ++ hexOfList (hashInput x)) (fun n => "ok " ++ hexOfList (toWire (lowerName n)))
+  | "nsub", [a, b] =>
+    withNames2 a b (fun x y => "ok " ++ b01 (eqOrSubdomainOf x y))
+      (fun x y => "ok " ++ b01 (decide (IsSubdomainOrEq x y)))
+  | "nsup", [a, k] =>
+    match natArg k with
+    | some k =>
+      withName a
+        (fun x => match Name.superdomain x k with
+          | some w => "ok " ++ hexOfList w
+          | none => "none")
+        (fun n => match Spec.NameText.superdomain n k with
+          | some m => "ok " ++ hexOfList (toWire m)
+          | none => "none")
+    | none => some bad
+  | "nlab", [a] =>
+    withName a
+      (fun x => match Name.isWildcard x with
+        | .ok wc => s!"ok {nLabels x} {b01 (isRoot x)} {b01 wc} {labelsHex (labelsOf x)}"
+        | .err e => "err:" ++ e.toString
+        | .panic => "panic")
+      (fun n => s!"ok {n.length + 1} {b01 n.isEmpty} {b01 (Spec.NameText.isWildcard n)} {labelsHex (allLabels n)}")
+  | "nlow", [a] =>
+    withName a (fun x => "ok " ++ hexOfList (makeAsciiLowercase x)) (fun n => "ok " ++ hexOfList (toWire (lowerName n)))
+  | "nwr", [a, k] =>
+    match natArg k with
+    | some k =>
+      withName a
+        (fun x => match wireReprTo x k, wireReprFrom x k with
+          | .ok t, .ok f => s!"ok {hexOfList t} {hexOfList f}"
+          | _, _ => "panic")
+        (fun n =>
+          if k = n.length + 1 then s!"ok {hexOfList (toWire n)} -"
+          else if k ≤ n.length then
+            s!"ok {hexOfList ((toWire (n.take k)).dropLast)} {hexOfList (toWire (n.drop k))}"
+          else "panic")
+    | none => some bad
+  | "nidx", [a, i] =>
+    match natArg i with
+    | some i =>
+      withName a
+        (fun x => match index x i with
+          | .ok l => "ok " ++ hexOfList l
+          | _ => "panic")
+        (fun n => match (allLabels n)[i]? with
+          | some l => "ok " ++ hexOfList l
+          | none => "panic")
+    | none => some bad
+  | "lcmp", [a, b] =>
+    match unhex a, unhex b with
+    | some x, some y =>
+      let (x, y) := (x.toList, y.toList)
+      some (if x.length > Gen.MAX_LABEL_LEN || y.length > Gen.MAX_LABEL_LEN then "err:LabelTooLong"
+            else s!"ok {ordS (labelCmp x y)} {b01 (labelEq x y)}",
+            if x.length > 63 || y.length > 63 then "err"
+            else s!"ok {ordS (cmpOctetString (lowerLabel x) (lowerLabel y))} {b01 (lowerLabel x == lowerLabel y)}")
+    | _, _ => some bad
+  | "lhash", [a] =>
+    match unhex a with
+    | some x =>
+      let x := x.toList
+      some (if x.length > Gen.MAX_LABEL_LEN then "err:LabelTooLong" else "ok " ++ hexOfList (labelHashInput x),
+            if x.length > 63 then "err" else "ok " ++ hexOfList (UInt8.ofNat x.length :: lowerLabel x))
+    | none => some bad
+  | "nb", [script] =>
+    let steps := script.splitOn ";"
+    match runScriptM Builder.new [] steps, runScriptS ⟨[], []⟩ [] steps with
+    | some m, some s =>
+      some (if m = ["panic"] then "panic" else "ok " ++ ";".intercalate m, "ok " ++ ";".intercalate s)
+    | _, _ => some bad
+  | _, _ => none
 
 end QV.Driver
